@@ -12,6 +12,7 @@ CONSTANT OpSet = {"Get", "GetActive", "Put", "Upsert", "Remove", "Peek", "Inval"
 CONSTANT FreePut = TRUE
 CONSTANT MaxOps = 3
 CONSTANT MaxSteps = 3
+CONSTANT SplitLoad = TRUE
 CONSTANT MaxUpd = 1
 CONSTANT Pool = 4
 CONSTANT SeqPrefix = 1000000
